@@ -457,7 +457,16 @@ fn cmd_hist(prop: &str) -> i32 {
         }
         _ => {
             let n = cases(4000, 120_000);
-            run_sharded(&mut rec, 2, n, shards(), "hist", optv, Duration::from_secs(60), || hist::strategy_rw(4, 8, false, true), hist_judge::judge_c02, |c| json!({"HistCase": c, "opts": "C02"}));
+            run_sharded(&mut rec, 2, n, shards(), "hist", optv, Duration::from_secs(60), || {
+                use proptest::prelude::*;
+                // one lifetime in six meets a failing munmap while its injector goes out of scope
+                (hist::strategy_rw(4, 8, false, true), prop::collection::vec(prop_oneof![5 => Just(0u8), 1 => 1u8..=3], 4)).prop_map(|(mut c, f)| {
+                    for (l, v) in c.lifetimes.iter_mut().zip(f) {
+                        l.munmap_fault = v;
+                    }
+                    c
+                })
+            }, hist_judge::judge_c02, |c| json!({"HistCase": c, "opts": "C02"}));
         }
     }
     rec.finish(&out_path())
